@@ -56,8 +56,16 @@ def register(reg):
 
     AVAIL = ('self.g_p <= q and q < len(self.g_F) and (self.g_F[q] == 0 or self.g_F[q] == 8) and '
              'forall(lambda j=Int: implies(self.g_p <= j and j < q, 1 <= self.g_F[j] and self.g_F[j] <= 7))')
+    fo = reg.contracts[D + '.failover']
+    # inside _send a fail-over is attempted only when the back-off has reached its maximum (the closure log_error runs in
+    # _send's scope: `retry` is _send's variable)
+    FO_VIEW = Contract(D + '.failover', params={}, returns=Bool, raises={}, modifies=list(fo.modifies),
+                       requires=[('only-when-the-back-off-is-at-its-maximum', 'retry == self.max_retry')],
+                       ensures=list(fo.ensures), ghost=dict(fo.ghost),
+                       trusted='the contract of failover itself (proved) plus the call-site condition of _send')
     reg.contract(
         D + '._send', params={'func': Callable('ext:daemon_call', bind='self'), 'args': Tuple(KJ, KJ)}, returns=KJ,
+        views={D + '.failover': FO_VIEW},
         ghost_params={'q': Int},
         requires=[('finite-faults-then-availability', AVAIL)],
         raises={'DaemonError': ['self.g_F[q] == 8', 'self.g_p == q + 1']},     # raised at its first occurrence, not retried
@@ -82,9 +90,15 @@ def register(reg):
     reg.contract(D + '._send.<locals>.log_error', params={'error': KStr}, inline=True)
 
     ERR = OneOf(Const(None), Record(code=KJ, message=KStr))
+    # the reply of a single call: no error -> the result itself; error code -28 (warming up) -> the transient WarmingUpError
+    # (retried by _send); any other error -> the genuine DaemonError for the caller
     reg.contract(D + '._send_single.<locals>.processor', params={'result': Record(error=ERR, result=KJ)},
                  closure_env={'self': Obj(D)},
-                 raises={'WarmingUpError': [], 'DaemonError': []}, returns=KJ, ensures=[], props=['C18'])
+                 raises={'WarmingUpError': ['not is_none(result["error"]) and py_eq(result["error"]["code"], -28)'],
+                         'DaemonError': ['not is_none(result["error"]) and not py_eq(result["error"]["code"], -28)']},
+                 returns=KJ,
+                 ensures=[('the-result-of-an-error-free-reply', 'is_none(result["error"]) and ret == result["result"]')],
+                 props=['C18'])
     reg.contract(D + '.cached_height', params={}, raises={}, ensures=['result == self._height'], props=['C18'])
 
 
